@@ -45,7 +45,9 @@ def main():
         sh("rm -rf %s %s; git worktree prune" % (REPO, OUT), cwd="/repo")
         os.makedirs("/tmp/seedwt", exist_ok=True)
         os.makedirs(OUT, exist_ok=True)
-        rc, out = sh("git worktree add -q --detach %s HEAD" % REPO, cwd="/repo")
+        base = os.environ.get("SEED_BASE", "HEAD")
+        rc, out = sh("git worktree add -q --detach %s %s" % (REPO, base), cwd="/repo")
+        meta["repo_commit"] = sh("git rev-parse --short %s" % base, cwd="/repo")[1].strip()
         if rc != 0:
             print("cannot create worktree:", out); sys.exit(2)
         ENV["VERIF_REPO"] = REPO
